@@ -561,10 +561,7 @@ func c04Messages(c *h.Ctx, g *c04Gen) {
 		for _, op := range batch {
 			names += ttlv.EnumStr(op) + " "
 		}
-		sigop := ttlv.EnumStr(batch[0]) + ":" + dir
-		if len(batch) > 1 {
-			sigop = "batch:" + dir
-		}
+		sigop := dir
 		c.Count("c:op:" + ttlv.EnumStr(batch[0]))
 		c04MessageOracle(c, dir, m1, b0, c04Msg{Dir: dir, Version: ver.String(), Ops: names}, sigop)
 	}
